@@ -61,7 +61,7 @@ func fifoShape(c *Ctx, rule string) {
 		}
 		nSt++
 		o.Site(in.Pos(), "push stores %s", st.Val.String())
-		call, ok := st.Val.(*ssa.Call)
+		call, ok := origin(st.Val).(*ssa.Call)
 		okApp := ok && isCall(call, "builtin.append") && isFieldLoad(call.Call.Args[0], "vnet.chunkQueue", "chunks")
 		if okApp {
 			// appended element is the parameter
@@ -101,7 +101,7 @@ func fifoShape(c *Ctx, rule string) {
 			u, ok := v.(*ssa.UnOp)
 			okIdx := false
 			if ok && u.Op == token.MUL {
-				if ia, ok := u.X.(*ssa.IndexAddr); ok && isFieldLoad(ia.X, "vnet.chunkQueue", "chunks") {
+				if ia, ok := origin(u.X).(*ssa.IndexAddr); ok && isFieldLoad(ia.X, "vnet.chunkQueue", "chunks") {
 					if k, ok := constInt(ia.Index); ok && k == 0 {
 						okIdx = true
 					}
@@ -120,7 +120,7 @@ func fifoShape(c *Ctx, rule string) {
 			return
 		}
 		nSt++
-		sl, ok := st.Val.(*ssa.Slice)
+		sl, ok := origin(st.Val).(*ssa.Slice)
 		okS := ok && isFieldLoad(sl.X, "vnet.chunkQueue", "chunks") && sl.High == nil
 		if okS {
 			k, isC := constInt(sl.Low)
@@ -149,7 +149,7 @@ func sliceOfParam(v ssa.Value, prm *ssa.Parameter) bool {
 	if !ok {
 		return false
 	}
-	al, ok := sl.X.(*ssa.Alloc)
+	al, ok := origin(sl.X).(*ssa.Alloc)
 	if !ok {
 		return false
 	}
@@ -440,7 +440,7 @@ func runC15(c *Ctx) {
 				refill = f
 				return
 			}
-			if b, ok := s.Val.(*ssa.BinOp); ok && b.Op == token.SUB && isFieldLoad(b.X, T, tokens) {
+			if b, ok := origin(s.Val).(*ssa.BinOp); ok && b.Op == token.SUB && isFieldLoad(b.X, T, tokens) {
 				return // decrease, checked in R2
 			}
 			o.Fail(in.Pos(), "the token count is set in %s without the min(maxBurst, .) cap: the burst bound can be exceeded", fname(f))
@@ -546,7 +546,7 @@ func runC15(c *Ctx) {
 				if !ok || !isFieldStore(s, T, tokens) {
 					return false
 				}
-				b, ok := s.Val.(*ssa.BinOp)
+				b, ok := origin(s.Val).(*ssa.BinOp)
 				return ok && b.Op == token.SUB && isFieldLoad(b.X, T, tokens) && isSize(b.Y)
 			}
 			end := func(in ssa.Instruction) bool { return isPeek(in) || isReturn(in) }
@@ -754,9 +754,9 @@ func runC14(c *Ctx) {
 			return
 		}
 		o.Site(in.Pos(), "deadline = %s", s.Val.String())
-		call, ok := s.Val.(*ssa.Call)
+		call, ok := origin(s.Val).(*ssa.Call)
 		if ok && callName(call) == "(time.Time).Add" {
-			now, ok1 := call.Call.Args[0].(*ssa.Call)
+			now, ok1 := origin(call.Call.Args[0]).(*ssa.Call)
 			if ok1 && callName(now) == "time.Now" && isFieldLoad(call.Call.Args[1], T, "delay") {
 				okDue = true
 			}
@@ -825,7 +825,7 @@ func runC14(c *Ctx) {
 		if !ok || ex.Index != 1 {
 			return false
 		}
-		ta, ok := ex.Tuple.(*ssa.TypeAssert)
+		ta, ok := origin(ex.Tuple).(*ssa.TypeAssert)
 		if !ok || typeName(ta.AssertedType) != "vnet.timedChunk" {
 			return false
 		}
@@ -884,7 +884,7 @@ func runC14(c *Ctx) {
 		if !ok || callName(call) != "(time.Time).Add" {
 			return
 		}
-		now, ok := call.Call.Args[0].(*ssa.Call)
+		now, ok := origin(call.Call.Args[0]).(*ssa.Call)
 		if !ok || callName(now) != "time.Now" {
 			return
 		}
@@ -939,7 +939,7 @@ func runC14(c *Ctx) {
 		if f := p.Func("vnet", tn, "setTimestamp"); f != nil {
 			instrsOf(f, func(in ssa.Instruction) {
 				if s, ok := in.(*ssa.Store); ok && isFieldStore(s, "vnet."+tn, "timestamp") {
-					call, ok := s.Val.(*ssa.Call)
+					call, ok := origin(s.Val).(*ssa.Call)
 					if !ok || callName(call) != "time.Now" {
 						o.Fail(in.Pos(), "setTimestamp does not record time.Now()")
 					}
